@@ -94,6 +94,416 @@ theorem convert_dict_idempotent (rp rp' : List (Nat × String)) (fd : Int) (j r 
 example : convertDict [] 2 (.obj [("gain_target", .flt 4625619029774565376), ("N", .int 3), ("loss", .int 2)])
     = .ok (.obj [("gain_target", .str "17.5"), ("N", .int 3), ("loss", .str "2.0")]) := by decide
 
+/-! ### per-degree targets of the three kinds -/
+
+/-- a legacy per-degree entry: absent, or a non-empty dict with distinct degree names -/
+def WfKind (p : Dict) (k : String) : Prop :=
+  p.get? k = none ∨ ∃ ts : Dict, p.get? k = some (.obj ts) ∧ ts ≠ [] ∧ (ts.map (·.1)).Nodup
+
+/-- what `popTargets` returns on a well-formed entry: the key is gone, the contribution is the list of
+the entry's targets (`T = []` exactly when the key was absent) -/
+theorem popTargets_spec (k : String) (p : Dict) (h : WfKind p k) :
+    ∃ T : Dict, popTargets k p = .ok (p.erase k, targetsOf k T) ∧
+      p.get? k = (if T = [] then none else some (.obj T)) ∧ (T = [] ∨ (T.map (·.1)).Nodup) := by
+  rcases h with h | ⟨ts, h, hne, hnd⟩
+  · exact ⟨[], by simp [popTargets, h, Dict.erase_of_get?_none p k h, targetsOf, pure, Except.pure], by simp [h], Or.inl rfl⟩
+  · refine ⟨ts, ?_, by simp [h, hne], Or.inr hnd⟩
+    have : (J.obj ts).truthy = true := by
+      cases ts with
+      | nil => exact absurd rfl hne
+      | cons _ _ => rfl
+    simp [popTargets, h, this, pure, Except.pure]
+
+theorem applyTargets_step (k : String) (hk : k ∈ eqTypes) (P T : Dict) (hP : P.get? k = none)
+    (hT : T = [] ∨ (T.map (·.1)).Nodup) :
+    ∃ q, applyTargets (targetsOf k T) P = .ok q ∧
+      q.get? k = (if T = [] then none else some (.obj T)) ∧ ∀ k', k' ≠ k → q.get? k' = P.get? k' := by
+  by_cases hT0 : T = []
+  · subst hT0
+    exact ⟨P, by simp [targetsOf, applyTargets, pure, Except.pure], by simpa using hP, fun _ _ => rfl⟩
+  · rcases hT with hT | hT
+    · exact absurd hT hT0
+    · obtain ⟨q, h1, h2, h3⟩ := applyTargets_targetsOf_fresh k hk T P hP hT0 hT
+      exact ⟨q, h1, by simp [hT0, h2], h3⟩
+
+/-- **every per-degree target of the three kinds survives legacy → YANG → legacy, in order.**
+For a ROADM `params` dict in legacy form whose `per_degree_pch_out_db`, `per_degree_psd_out_mWperGHz`
+and `per_degree_psd_out_mWperSlotWidth` entries are absent or non-empty dicts with distinct degree
+names, `convert_degree` followed by `convert_back_degree` succeeds and gives a dict with the same
+value under every key – in particular each of the three degree dicts comes back entry for entry in
+the original order (values are equal as trees, so the order inside them is part of the claim). -/
+theorem degree_roundtrip (p : Dict) (h0 : p.get? "per_degree_power_targets" = none)
+    (h1 : WfKind p "per_degree_pch_out_db") (h2 : WfKind p "per_degree_psd_out_mWperGHz")
+    (h3 : WfKind p "per_degree_psd_out_mWperSlotWidth") :
+    ∃ y q, degreeToYang p = .ok y ∧ degreeToLegacy y = .ok q ∧ ∀ k, q.get? k = p.get? k := by
+  have n12 : ("per_degree_pch_out_db" : String) ≠ "per_degree_psd_out_mWperGHz" := by decide
+  have n13 : ("per_degree_pch_out_db" : String) ≠ "per_degree_psd_out_mWperSlotWidth" := by decide
+  have n23 : ("per_degree_psd_out_mWperGHz" : String) ≠ "per_degree_psd_out_mWperSlotWidth" := by decide
+  have n1p : ("per_degree_pch_out_db" : String) ≠ "per_degree_power_targets" := by decide
+  have n2p : ("per_degree_psd_out_mWperGHz" : String) ≠ "per_degree_power_targets" := by decide
+  have n3p : ("per_degree_psd_out_mWperSlotWidth" : String) ≠ "per_degree_power_targets" := by decide
+  obtain ⟨T1, e1, g1, w1⟩ := popTargets_spec _ p h1
+  have h2' : WfKind (p.erase "per_degree_pch_out_db") "per_degree_psd_out_mWperGHz" := by
+    unfold WfKind; rw [Dict.get?_erase_other _ _ _ n12]; exact h2
+  obtain ⟨T2, e2, g2, w2⟩ := popTargets_spec _ _ h2'
+  have h3' : WfKind ((p.erase "per_degree_pch_out_db").erase "per_degree_psd_out_mWperGHz")
+      "per_degree_psd_out_mWperSlotWidth" := by
+    unfold WfKind; rw [Dict.get?_erase_other _ _ _ n23, Dict.get?_erase_other _ _ _ n13]; exact h3
+  obtain ⟨T3, e3, g3, w3⟩ := popTargets_spec _ _ h3'
+  rw [Dict.get?_erase_other _ _ _ n12] at g2
+  rw [Dict.get?_erase_other _ _ _ n23, Dict.get?_erase_other _ _ _ n13] at g3
+  set p3 := ((p.erase "per_degree_pch_out_db").erase "per_degree_psd_out_mWperGHz").erase
+    "per_degree_psd_out_mWperSlotWidth" with hp3
+  set newT := targetsOf "per_degree_pch_out_db" T1 ++ targetsOf "per_degree_psd_out_mWperGHz" T2 ++
+    targetsOf "per_degree_psd_out_mWperSlotWidth" T3 with hnewT
+  have hy : degreeToYang p = .ok (if newT.isEmpty then p3 else p3.set "per_degree_power_targets" (.arr newT)) := by
+    simp only [degreeToYang, e1, e2, e3, bind, Except.bind, pure, Except.pure]
+    split <;> rfl
+  -- lookups in p3
+  have p3k1 : p3.get? "per_degree_pch_out_db" = none := by
+    rw [hp3, Dict.get?_erase_other _ _ _ n13.symm, Dict.get?_erase_other _ _ _ n12.symm, Dict.get?_erase_same]
+  have p3k2 : p3.get? "per_degree_psd_out_mWperGHz" = none := by
+    rw [hp3, Dict.get?_erase_other _ _ _ n23.symm, Dict.get?_erase_same]
+  have p3k3 : p3.get? "per_degree_psd_out_mWperSlotWidth" = none := by
+    rw [hp3, Dict.get?_erase_same]
+  have p3o : ∀ k, k ≠ "per_degree_pch_out_db" → k ≠ "per_degree_psd_out_mWperGHz" →
+      k ≠ "per_degree_psd_out_mWperSlotWidth" → p3.get? k = p.get? k := by
+    intro k a b c
+    rw [hp3, Dict.get?_erase_other _ _ _ c.symm, Dict.get?_erase_other _ _ _ b.symm, Dict.get?_erase_other _ _ _ a.symm]
+  -- replaying the targets on any dict that looks like p3 (the three kinds absent)
+  have replay : ∀ P : Dict, (∀ k, k ≠ "per_degree_power_targets" → P.get? k = p3.get? k) →
+      P.get? "per_degree_power_targets" = none →
+      ∃ q, applyTargets newT P = .ok q ∧ ∀ k, q.get? k = p.get? k := by
+    intro P hP hPp
+    obtain ⟨q1, a1, b1, c1⟩ := applyTargets_step "per_degree_pch_out_db" (by simp [eqTypes]) P T1
+      (by rw [hP _ n1p, p3k1]) w1
+    obtain ⟨q2, a2, b2, c2⟩ := applyTargets_step "per_degree_psd_out_mWperGHz" (by simp [eqTypes]) q1 T2
+      (by rw [c1 _ n12.symm, hP _ n2p, p3k2]) w2
+    obtain ⟨q3, a3, b3, c3⟩ := applyTargets_step "per_degree_psd_out_mWperSlotWidth" (by simp [eqTypes]) q2 T3
+      (by rw [c2 _ n23.symm, c1 _ n13.symm, hP _ n3p, p3k3]) w3
+    refine ⟨q3, ?_, ?_⟩
+    · rw [hnewT, applyTargets_append, applyTargets_append]
+      simp only [a1, a2, a3, bind, Except.bind]
+    · intro k
+      by_cases k3 : k = "per_degree_psd_out_mWperSlotWidth"
+      · rw [k3, b3, g3]
+      · rw [c3 k k3]
+        by_cases k2 : k = "per_degree_psd_out_mWperGHz"
+        · rw [k2, b2, g2]
+        · rw [c2 k k2]
+          by_cases k1 : k = "per_degree_pch_out_db"
+          · rw [k1, b1, g1]
+          · rw [c1 k k1]
+            by_cases kp : k = "per_degree_power_targets"
+            · rw [kp, hPp, h0]
+            · rw [hP k kp, p3o k k1 k2 k3]
+  by_cases hemp : newT.isEmpty = true
+  · -- nothing to convert: the YANG form is the dict itself
+    refine ⟨p3, p3, by rw [hy]; simp [hemp], ?_, ?_⟩
+    · have : p3.get? "per_degree_power_targets" = none := by rw [p3o _ n1p.symm n2p.symm n3p.symm, h0]
+      simp [degreeToLegacy, this, pure, Except.pure]
+    · have hnil : newT = [] := List.isEmpty_iff.1 hemp
+      obtain ⟨q, hq, hqk⟩ := replay p3 (fun _ _ => rfl) (by rw [p3o _ n1p.symm n2p.symm n3p.symm, h0])
+      rw [hnil] at hq
+      simp only [applyTargets, pure, Except.pure, Except.ok.injEq] at hq
+      subst hq
+      exact hqk
+  · refine ⟨p3.set "per_degree_power_targets" (.arr newT), ?_⟩
+    have hne : newT ≠ [] := fun e => hemp (by simp [e])
+    have htr : (J.arr newT).truthy = true := by
+      cases hh : newT with
+      | nil => exact absurd hh hne
+      | cons _ _ => rfl
+    obtain ⟨q, hq, hqk⟩ := replay ((p3.set "per_degree_power_targets" (.arr newT)).erase "per_degree_power_targets")
+      (fun k hk => by rw [Dict.get?_erase_other _ _ _ (Ne.symm hk), Dict.get?_set_other _ _ _ _ (Ne.symm hk)])
+      (Dict.get?_erase_same _ _)
+    refine ⟨q, by rw [hy]; simp [hemp], ?_, hqk⟩
+    simp only [degreeToLegacy, Dict.get?_set_same, htr, Bool.not_true, Bool.false_eq_true, if_false, asArr,
+      bind, Except.bind, pure, Except.pure]
+    exact hq
+
+/-- non-vacuity: two kinds, three degrees; the round trip gives back the dict (here even with the
+    same key order because the per-degree keys were the last ones) -/
+example : (degreeToYang [("target_pch_out_db", .int (-20)),
+      ("per_degree_pch_out_db", .obj [("east", .int (-19)), ("west", .int (-21))]),
+      ("per_degree_psd_out_mWperGHz", .obj [("north", .int 1)])] >>= degreeToLegacy)
+    = .ok [("target_pch_out_db", .int (-20)),
+      ("per_degree_pch_out_db", .obj [("east", .int (-19)), ("west", .int (-21))]),
+      ("per_degree_psd_out_mWperGHz", .obj [("north", .int 1)])] := by decide
+
+/-! ### design bands per degree, per-frequency loss, Raman coefficient -/
+
+/-- **every per-degree design band list survives, in order.** -/
+theorem design_band_roundtrip (p : Dict) (T : Dict) (h0 : p.get? "per_degree_design_bands_targets" = none)
+    (h1 : p.get? "per_degree_design_bands" = some (.obj T)) (hne : T ≠ []) (hnd : (T.map (·.1)).Nodup) :
+    ∃ y q, designBandToYang p = .ok y ∧ designBandToLegacy y = .ok q ∧ ∀ k, q.get? k = p.get? k := by
+  have n : ("per_degree_design_bands" : String) ≠ "per_degree_design_bands_targets" := by decide
+  have htr : (J.obj T).truthy = true := by
+    cases T with
+    | nil => exact absurd rfl hne
+    | cons _ _ => rfl
+  set newT := T.map (fun dv => J.obj [("degree_uid", .str dv.1), ("design_bands", dv.2)]) with hnewT
+  have hy : designBandToYang p = .ok ((p.erase "per_degree_design_bands").set "per_degree_design_bands_targets" (.arr newT)) := by
+    simp [designBandToYang, h1, htr, pure, Except.pure, hnewT]
+  have htr2 : (J.arr newT).truthy = true := by
+    cases T with
+    | nil => exact absurd rfl hne
+    | cons _ _ => rfl
+  have hcol : collectBands newT [] = .ok ([] ++ T) := collectBands_generated T [] (by simpa using hnd)
+  have hTe : T.isEmpty = false := by
+    cases T with
+    | nil => exact absurd rfl hne
+    | cons _ _ => rfl
+  refine ⟨_, ((((p.erase "per_degree_design_bands").set "per_degree_design_bands_targets" (.arr newT)).erase
+    "per_degree_design_bands_targets").set "per_degree_design_bands" (.obj T)), hy, ?_, ?_⟩
+  · simp only [designBandToLegacy, Dict.get?_set_same, htr2, Bool.not_true, Bool.false_eq_true, if_false, asArr,
+      bind, Except.bind, pure, Except.pure, hcol, List.nil_append, hTe]
+  · intro k
+    by_cases k1 : k = "per_degree_design_bands"
+    · rw [k1, Dict.get?_set_same, h1]
+    · rw [Dict.get?_set_other _ _ _ _ (Ne.symm k1)]
+      by_cases k2 : k = "per_degree_design_bands_targets"
+      · rw [k2, Dict.get?_erase_same, h0]
+      · rw [Dict.get?_erase_other _ _ _ (Ne.symm k2), Dict.get?_set_other _ _ _ _ (Ne.symm k2),
+          Dict.get?_erase_other _ _ _ (Ne.symm k1)]
+
+/-- **the per-frequency loss list survives, entry by entry.**  `loss_coef: {value: [...],
+frequency: [...]}` (lists of equal length, not empty) goes to `loss_coef_per_frequency` and back;
+afterwards `loss_coef` holds the same two lists (keys in the order frequency, value) and every
+other key of `params` is untouched. -/
+theorem loss_coef_roundtrip (p lc : Dict) (fl vl : List J)
+    (h0 : p.get? "loss_coef_per_frequency" = none)
+    (h1 : p.get? "loss_coef" = some (.obj lc))
+    (hv : lc.get? "value" = some (.arr vl)) (hf : lc.get? "frequency" = some (.arr fl))
+    (hne : vl ≠ []) (hlen : fl.length = vl.length) :
+    ∃ y q, lossCoefToYang p = .ok y ∧ lossCoefToLegacy y = .ok q ∧
+      q.get? "loss_coef" = some (.obj [("frequency", .arr fl), ("value", .arr vl)]) ∧
+      ∀ k, k ≠ "loss_coef" → q.get? k = p.get? k := by
+  have n : ("loss_coef" : String) ≠ "loss_coef_per_frequency" := by decide
+  have nfv : ("frequency" : String) ≠ "loss_coef_value" := by decide
+  have htr : (J.arr vl).truthy = true := by
+    cases vl with
+    | nil => exact absurd rfl hne
+    | cons _ _ => rfl
+  have hfl : fl ≠ [] := by
+    intro e; rw [e] at hlen; exact hne (List.length_eq_zero_iff.1 hlen.symm)
+  set z := zipDicts "frequency" "loss_coef_value" fl vl with hz
+  have hy : lossCoefToYang p = .ok ((p.erase "loss_coef").set "loss_coef_per_frequency" (.arr z)) := by
+    simp [lossCoefToYang, h1, hv, hf, htr, asArr, bind, Except.bind, pure, Except.pure, hz]
+  have hzne : z ≠ [] := zipDicts_ne_nil _ _ _ _ hfl hlen
+  have htr2 : (J.arr z).truthy = true := by
+    cases hh : z with
+    | nil => exact absurd hh hzne
+    | cons _ _ => rfl
+  refine ⟨_, ((((p.erase "loss_coef").set "loss_coef_per_frequency" (.arr z)).erase
+    "loss_coef_per_frequency").set "loss_coef" (.obj [("frequency", .arr fl), ("value", .arr vl)])), hy, ?_, ?_, ?_⟩
+  · have c1 : column "frequency" z = .ok fl := column_zipDicts_fst _ _ nfv fl vl hlen
+    have c2 : column "loss_coef_value" z = .ok vl := column_zipDicts_snd _ _ nfv fl vl hlen
+    simp only [lossCoefToLegacy, Dict.get?_set_same, htr2, Bool.not_true, Bool.false_eq_true, if_false, asArr,
+      bind, Except.bind, pure, Except.pure, c1, c2]
+  · rw [Dict.get?_set_same]
+  · intro k k1
+    rw [Dict.get?_set_other _ _ _ _ (Ne.symm k1)]
+    by_cases k2 : k = "loss_coef_per_frequency"
+    · rw [k2, Dict.get?_erase_same, h0]
+    · rw [Dict.get?_erase_other _ _ _ (Ne.symm k2), Dict.get?_set_other _ _ _ _ (Ne.symm k2),
+        Dict.get?_erase_other _ _ _ (Ne.symm k1)]
+
+/-- **the Raman coefficient of a fibre element survives, entry by entry**, with its reference
+frequency. -/
+theorem raman_coef_roundtrip (p rc : Dict) (fl gl : List J) (rf : J)
+    (h1 : p.get? "raman_coefficient" = some (.obj rc))
+    (hg : rc.get? "g0" = some (.arr gl)) (hf : rc.get? "frequency_offset" = some (.arr fl))
+    (hr : rc.get? "reference_frequency" = some rf)
+    (hne : fl ≠ []) (hlen : fl.length = gl.length) :
+    ∃ y q, ramanCoefToYang p = .ok y ∧ ramanCoefToLegacy y = .ok q ∧
+      q.get? "raman_coefficient" = some (.obj [("reference_frequency", rf), ("g0", .arr gl), ("frequency_offset", .arr fl)]) ∧
+      ∀ k, k ≠ "raman_coefficient" → q.get? k = p.get? k := by
+  have nfg : ("frequency_offset" : String) ≠ "g0" := by decide
+  have htr : (J.arr fl).truthy = true := by
+    cases fl with
+    | nil => exact absurd rfl hne
+    | cons _ _ => rfl
+  have hin : pyIn "g0" (J.obj rc) = true := by
+    simp only [pyIn]; exact (Dict.has_true_iff rc "g0").2 ⟨_, hg⟩
+  have hrf : ((rc.erase "g0").erase "frequency_offset").get "reference_frequency" = .ok rf := by
+    simp only [Dict.get]
+    rw [Dict.get?_erase_other _ _ _ (by decide), Dict.get?_erase_other _ _ _ (by decide), hr]
+    rfl
+  set z := zipDicts "frequency_offset" "g0" fl gl with hz
+  have hy : ramanCoefToYang p = .ok ((p.erase "raman_coefficient").set "raman_coefficient"
+      (.obj [("reference_frequency", rf), ("g0_per_frequency", .arr z)])) := by
+    simp [ramanCoefToYang, h1, hin, asObj, popD, hg, hf, htr, hrf, asArr, bind, Except.bind, pure, Except.pure, hz]
+  have c1 : column "frequency_offset" z = .ok fl := column_zipDicts_fst _ _ nfg fl gl hlen
+  have c2 : column "g0" z = .ok gl := column_zipDicts_snd _ _ nfg fl gl hlen
+  have hfe : fl.isEmpty = false := by
+    cases fl with
+    | nil => exact absurd rfl hne
+    | cons _ _ => rfl
+  refine ⟨_, (((p.erase "raman_coefficient").set "raman_coefficient"
+      (.obj [("reference_frequency", rf), ("g0_per_frequency", .arr z)])).erase "raman_coefficient").set "raman_coefficient"
+      (.obj [("reference_frequency", rf), ("g0", .arr gl), ("frequency_offset", .arr fl)]), hy, ?_, ?_, ?_⟩
+  · have hin2 : pyIn "g0_per_frequency" (J.obj [("reference_frequency", rf), ("g0_per_frequency", .arr z)]) = true := by
+      simp [pyIn, Dict.has]
+    simp only [ramanCoefToLegacy, Dict.get?_set_same, hin2, Bool.not_true, Bool.false_eq_true, if_false, asObj, popD,
+      Dict.get?, asArr, bind, Except.bind, pure, Except.pure]
+    simp [c1, c2, hfe, Dict.get, Dict.get?, Dict.erase, bind, Except.bind, pure, Except.pure]
+  · rw [Dict.get?_set_same]
+  · intro k k1
+    rw [Dict.get?_set_other _ _ _ _ (Ne.symm k1), Dict.get?_erase_other _ _ _ (Ne.symm k1),
+      Dict.get?_set_other _ _ _ _ (Ne.symm k1), Dict.get?_erase_other _ _ _ (Ne.symm k1)]
+
+/-! ### every structural converter is a no-op on its own output -/
+
+theorem popTargets_absent (k : String) (p : Dict) (h : p.get? k = none) : popTargets k p = .ok (p, []) := by
+  simp [popTargets, h, pure, Except.pure]
+
+/-- `convert_degree` applied to its own output changes nothing -/
+theorem degree_to_yang_idempotent (p y : Dict) (h : degreeToYang p = .ok y) : degreeToYang y = .ok y := by
+  simp only [degreeToYang, bind_ok, pure_ok] at h
+  obtain ⟨⟨p1, t1⟩, e1, ⟨p2, t2⟩, e2, ⟨p3, t3⟩, e3, h⟩ := h
+  have n12 : ("per_degree_pch_out_db" : String) ≠ "per_degree_psd_out_mWperGHz" := by decide
+  have n13 : ("per_degree_pch_out_db" : String) ≠ "per_degree_psd_out_mWperSlotWidth" := by decide
+  have n23 : ("per_degree_psd_out_mWperGHz" : String) ≠ "per_degree_psd_out_mWperSlotWidth" := by decide
+  -- after popping, the key is absent
+  have pop_none : ∀ (k : String) (a b : Dict) (t : List J), popTargets k a = .ok (b, t) → b.get? k = none ∧
+      ∀ k', k' ≠ k → b.get? k' = a.get? k' := by
+    intro k a b t hk
+    unfold popTargets at hk
+    split at hk
+    · rename_i hn
+      simp only [pure_ok, Prod.mk.injEq] at hk
+      obtain ⟨rfl, _⟩ := hk
+      exact ⟨hn, fun _ _ => rfl⟩
+    · split at hk
+      · simp only [pure_ok, Prod.mk.injEq] at hk
+        obtain ⟨rfl, _⟩ := hk
+        exact ⟨Dict.get?_erase_same _ _, fun k' hk' => Dict.get?_erase_other _ _ _ (Ne.symm hk')⟩
+      · split at hk
+        · simp only [pure_ok, Prod.mk.injEq] at hk
+          obtain ⟨rfl, _⟩ := hk
+          exact ⟨Dict.get?_erase_same _ _, fun k' hk' => Dict.get?_erase_other _ _ _ (Ne.symm hk')⟩
+        · simp [attributeError] at hk
+  obtain ⟨a1, b1⟩ := pop_none _ _ _ _ e1
+  obtain ⟨a2, b2⟩ := pop_none _ _ _ _ e2
+  obtain ⟨a3, b3⟩ := pop_none _ _ _ _ e3
+  have k1 : p3.get? "per_degree_pch_out_db" = none := by rw [b3 _ n13, b2 _ n12, a1]
+  have k2 : p3.get? "per_degree_psd_out_mWperGHz" = none := by rw [b3 _ n23, a2]
+  have k3 : p3.get? "per_degree_psd_out_mWperSlotWidth" = none := a3
+  have done : ∀ z : Dict, z.get? "per_degree_pch_out_db" = none → z.get? "per_degree_psd_out_mWperGHz" = none →
+      z.get? "per_degree_psd_out_mWperSlotWidth" = none → degreeToYang z = .ok z := by
+    intro z z1 z2 z3
+    simp [degreeToYang, popTargets_absent _ z z1, popTargets_absent _ z z2, popTargets_absent _ z z3,
+      bind, Except.bind, pure, Except.pure]
+  split at h
+  · simp only [pure_ok] at h; subst h; exact done _ k1 k2 k3
+  · simp only [pure_ok] at h; subst h
+    exact done _ (by rw [Dict.get?_set_other _ _ _ _ (by decide), k1])
+      (by rw [Dict.get?_set_other _ _ _ _ (by decide), k2]) (by rw [Dict.get?_set_other _ _ _ _ (by decide), k3])
+
+/-- `convert_design_band` applied to its own output changes nothing -/
+theorem design_band_to_yang_idempotent (p y : Dict) (h : designBandToYang p = .ok y) : designBandToYang y = .ok y := by
+  have absent : ∀ z : Dict, z.get? "per_degree_design_bands" = none → designBandToYang z = .ok z := by
+    intro z hz; simp [designBandToYang, hz, pure, Except.pure]
+  unfold designBandToYang at h
+  split at h
+  · rename_i hn
+    simp only [pure_ok] at h; subst h; exact absent _ hn
+  · rename_i t ht
+    simp only at h
+    split at h
+    · simp only [pure_ok] at h; subst h; exact absent _ (Dict.get?_erase_same _ _)
+    · split at h
+      · simp only [pure_ok] at h; subst h
+        exact absent _ (by rw [Dict.get?_set_other _ _ _ _ (by decide), Dict.get?_erase_same])
+      · simp [attributeError] at h
+
+/-- `process_span_data` / `process_si_data` applied to their own output change nothing -/
+theorem range_to_yang_idempotent (lk dk : String) (e y : Dict) (hne : lk ≠ dk) (h : rangeToYang lk dk e = .ok y) :
+    rangeToYang lk dk y = .ok y := by
+  unfold rangeToYang at h
+  split at h
+  · rename_i hh
+    simp only [pure_ok] at h; subst h
+    simp [rangeToYang, hh, pure, Except.pure]
+  · split at h
+    · simp [keyError] at h
+    · rename_i r hr
+      simp only [bind_ok, pure_ok] at h
+      obtain ⟨d, _, rfl⟩ := h
+      have : ((e.set dk d).erase lk).has dk = true := by
+        rw [Dict.has_true_iff]; exact ⟨d, by rw [Dict.get?_erase_other _ _ _ hne, Dict.get?_set_same]⟩
+      simp [rangeToYang, this, pure, Except.pure]
+
+/-- `convert_loss_coeff_list` applied to its own output changes nothing -/
+theorem loss_coef_to_yang_idempotent (p y : Dict) (h : lossCoefToYang p = .ok y) : lossCoefToYang y = .ok y := by
+  have absent : ∀ z : Dict, z.get? "loss_coef" = none → lossCoefToYang z = .ok z := by
+    intro z hz; simp [lossCoefToYang, hz, pure, Except.pure]
+  unfold lossCoefToYang at h
+  split at h
+  · rename_i lc hlc
+    simp only at h
+    split at h
+    · simp only [pure_ok] at h; subst h; exact absent _ (Dict.get?_erase_same _ _)
+    · simp only [bind_ok, pure_ok] at h
+      obtain ⟨vl, _, h⟩ := h
+      split at h
+      · simp only [bind, Except.bind, pure, Except.pure, Except.ok.injEq] at h
+        subst h
+        exact absent _ (by rw [Dict.get?_set_other _ _ _ _ (by decide), Dict.get?_erase_same])
+      · simp [typeError, bind, Except.bind] at h
+  · rename_i hno
+    simp only [pure_ok] at h; subst h
+    unfold lossCoefToYang
+    split
+    · rename_i lc hlc; exact absurd hlc (hno lc)
+    · rfl
+
+/-- the four converters of the way back are no-ops on their own output -/
+theorem design_band_to_legacy_idempotent (p y : Dict) (h : designBandToLegacy p = .ok y) :
+    designBandToLegacy y = .ok y := by
+  have absent : ∀ z : Dict, z.get? "per_degree_design_bands_targets" = none → designBandToLegacy z = .ok z := by
+    intro z hz; simp [designBandToLegacy, hz, pure, Except.pure]
+  unfold designBandToLegacy at h
+  split at h
+  · rename_i hn
+    simp only [pure_ok] at h; subst h; exact absent _ hn
+  · simp only at h
+    split at h
+    · simp only [pure_ok] at h; subst h; exact absent _ (Dict.get?_erase_same _ _)
+    · simp only [bind_ok] at h
+      obtain ⟨l, _, bands, _, h⟩ := h
+      split at h
+      · simp only [pure_ok] at h; subst h; exact absent _ (Dict.get?_erase_same _ _)
+      · simp only [pure_ok] at h; subst h
+        exact absent _ (by rw [Dict.get?_set_other _ _ _ _ (by decide), Dict.get?_erase_same])
+
+theorem loss_coef_to_legacy_idempotent (p y : Dict) (h : lossCoefToLegacy p = .ok y) :
+    lossCoefToLegacy y = .ok y := by
+  have absent : ∀ z : Dict, z.get? "loss_coef_per_frequency" = none → lossCoefToLegacy z = .ok z := by
+    intro z hz; simp [lossCoefToLegacy, hz, pure, Except.pure]
+  unfold lossCoefToLegacy at h
+  split at h
+  · rename_i hn
+    simp only [pure_ok] at h; subst h; exact absent _ hn
+  · simp only at h
+    split at h
+    · simp only [pure_ok] at h; subst h; exact absent _ (Dict.get?_erase_same _ _)
+    · simp only [bind_ok, pure_ok] at h
+      obtain ⟨items, _, fr, _, va, _, rfl⟩ := h
+      exact absent _ (by rw [Dict.get?_set_other _ _ _ _ (by decide), Dict.get?_erase_same])
+
+theorem range_to_legacy_idempotent (lk dk : String) (e y : Dict) (hne : lk ≠ dk) (h : rangeToLegacy lk dk e = .ok y) :
+    rangeToLegacy lk dk y = .ok y := by
+  unfold rangeToLegacy at h
+  split at h
+  · rename_i hh
+    simp only [pure_ok] at h; subst h
+    simp [rangeToLegacy, hh, pure, Except.pure]
+  · simp only [bind_ok, pure_ok] at h
+    obtain ⟨r, _, a, _, b, _, c, _, rfl⟩ := h
+    simp [rangeToLegacy, Dict.get?_erase_same, pure, Except.pure]
+
 /-! ### SI / Span power ranges (finding F6) -/
 
 /-- `[min, max, step]` → dict → `[min, max, step]` for one SI/Span entry: the list comes back, the
